@@ -401,4 +401,42 @@ def jalStep (alpha gamma : Rat) (j : JAL) (e : Nat × List Nat × Nat × Rat) : 
 
 def jalRun (alpha gamma : Rat) (j : JAL) (hist : List (Nat × List Nat × Nat × Rat)) : JAL := hist.foldl (jalStep alpha gamma) j
 
+/-! ### `CooperativeQLearning` (src/Factored/MDP/Algorithms/CooperativeQLearning.cpp), any number of bases.
+The greedy next action `a1` (computed by variable elimination, property C13) is an input. -/
+
+/-- `makeQFunction(graph, basisDomains)`: one zero matrix per domain, tags merged as in `backProject` -/
+def coopInit (g : DDNGraph) (domains : List (List Nat)) : FM :=
+  domains.map (fun dom =>
+    let tags := bpTags g dom ([], [])
+    { tag := tags.1, atag := tags.2,
+      vals := List.replicate (spacePartial tags.1 g.S) (List.replicate (spacePartial tags.2 g.A) 0) })
+
+/-- `agentNormRews_` as the constructor intends it: for every agent the number of bases whose actionTag names it
+    (zero-initialised, then `++agentNormRews_[a]`) -/
+def coopNorm (nA : Nat) (q : FM) : List Rat :=
+  (List.range nA).map (fun ag => ((q.filter (fun b => b.atag.contains ag)).length : Rat))
+
+/-- `for (auto a : tag) per[a] += val` -/
+def addAt (per : List Rat) (tag : List Nat) (val : Rat) : List Rat := tag.foldl (fun p ag => p.set ag (p.getD ag 0 + val)) per
+
+def BM.put (b : BM) (i j : Nat) (v : Rat) : BM := { b with vals := b.vals.set i ((b.vals.getD i []).set j v) }
+
+/-- the three accumulation loops and `*= alpha_` of `stepUpdateQ` -/
+def coopPer (S A : List Nat) (alpha gamma : Rat) (q : FM) (norm : List Rat) (s a s1 a1 : List Nat) (rew : List Rat) : List Rat :=
+  let per0 := (rew.zip norm).map (fun rn => rn.1 / rn.2)
+  let per1 := q.foldl (fun per b => addAt per b.atag (gamma * b.get S A s1 a1 / (b.atag.length : Rat))) per0
+  let per2 := q.foldl (fun per b => addAt per b.atag (-(b.get S A s a) / (b.atag.length : Rat))) per1
+  per2.map (· * alpha)
+
+/-- `CooperativeQLearning::stepUpdateQ(s, a, s1, rew)` given the greedy `a1` it samples -/
+def coopStep (S A : List Nat) (alpha gamma : Rat) (norm : List Rat) (q : FM) (e : List Nat × List Nat × List Nat × List Nat × List Rat) : FM :=
+  let s := e.1; let a := e.2.1; let s1 := e.2.2.1; let a1 := e.2.2.2.1; let rew := e.2.2.2.2
+  let per := coopPer S A alpha gamma q norm s a s1 a1 rew
+  q.map (fun b =>
+    let upd := b.atag.foldl (fun u ag => u + per.getD ag 0) 0
+    b.put (toIndexPartial b.tag S s) (toIndexPartial b.atag A a) (b.get S A s a + upd))
+
+def coopRun (S A : List Nat) (alpha gamma : Rat) (norm : List Rat) (q : FM)
+    (hist : List (List Nat × List Nat × List Nat × List Nat × List Rat)) : FM := hist.foldl (coopStep S A alpha gamma norm) q
+
 end AITB.Factored
